@@ -204,7 +204,13 @@ try {
 
     int selected = -1;
     if (ca.m.count('s')) {
-        selected = atoi(ca.m['s'].c_str());
+        // a plain non-negative decimal index: "1x", "-2", "4294967297" (atoi: 1, ignored, 1) are not selections of an input
+        const std::string& sel = ca.m['s'];
+        if (sel.empty() || sel.size() > 9 || sel.find_first_not_of("0123456789") != std::string::npos) {
+            fprintf(stderr, "invalid --select value \"%s\": the index of an input of the spending transaction is expected\n", sel.c_str());
+            return 1;
+        }
+        selected = atoi(sel.c_str());
     }
 
     if (ca.l.size() > 0 && !strncmp(ca.l[0], "tx=", 3)) {
